@@ -593,7 +593,9 @@ func RunCyclicCLI(p *Prog, deadline time.Duration) (*RunOut, error) {
 		return nil, err
 	}
 	defer os.RemoveAll(dir)
+	p.flat = true
 	y, _ := yaml.Marshal(p.Taskfile())
+	p.flat = false
 	if err := os.WriteFile(filepath.Join(dir, "Taskfile.yml"), y, 0o644); err != nil {
 		return nil, err
 	}
@@ -601,8 +603,8 @@ func RunCyclicCLI(p *Prog, deadline time.Duration) (*RunOut, error) {
 	if p.Cfg.N > 0 {
 		args = append(args, "-C", fmt.Sprint(p.Cfg.N))
 	}
-	for k, rc := range p.Cfg.Roots {
-		args = append(args, p.rootName(k), fmt.Sprintf("V=%d", *rc.Var))
+	for _, rc := range p.Cfg.Roots {
+		args = append(args, fmt.Sprintf("t%d:w-x", rc.Task), fmt.Sprintf("V=%d", *rc.Var))
 	}
 	ctx, cancel := context.WithTimeout(context.Background(), deadline)
 	defer cancel()
